@@ -6,6 +6,7 @@ This Source Code Form is subject to the terms of the Mozilla Public
 License, v. 2.0. If a copy of the MPL was not distributed with this file,
 You can obtain one at http://mozilla.org/MPL/2.0/.
 */
+#include <mutex>
 #include <iostream>
 #include <map>
 
@@ -73,8 +74,10 @@ static std::string opcode_names[Opcode::LAST_OP];
 
 static void buildNames()
 {
-    if (opcode_names[0].empty())
-    {
+    // Trees may be printed from several threads at once, so the table
+    // must be filled exactly once
+    static std::once_flag built;
+    std::call_once(built, [](){
         for (auto& o : _opcode_names)
         {
             opcode_names[o.first] =
@@ -82,7 +85,7 @@ static void buildNames()
                     ? o.second.substr(3)
                     : o.second;
         }
-    }
+    });
 }
 
 std::string Opcode::toString(Opcode op)
@@ -115,15 +118,15 @@ std::string Opcode::toScmString(Opcode op)
 
 Opcode::Opcode Opcode::fromScmString(std::string s)
 {
-    // Lazy initialization of string -> Opcode map
-    static std::map<std::string, Opcode> inverse;
-    if (inverse.size() == 0)
-    {
+    // Lazy (and thread-safe) initialization of string -> Opcode map
+    static const std::map<std::string, Opcode> inverse = [](){
+        std::map<std::string, Opcode> out;
         for (unsigned i=0; i < LAST_OP; ++i)
         {
-            inverse[toScmString(Opcode(i))] = Opcode(i);
+            out[toScmString(Opcode(i))] = Opcode(i);
         }
-    }
+        return out;
+    }();
 
     // Be liberal in what you accept
     boost::algorithm::to_lower(s);
